@@ -7,6 +7,7 @@ import (
 	"fmt"
 	"reflect"
 	"sort"
+	"strconv"
 	"strings"
 	"sync"
 	"testing"
@@ -74,20 +75,45 @@ func snapshot(s *ast.Schema) string {
 				return
 			}
 			keys := v.MapKeys()
-			sort.Slice(keys, func(i, j int) bool { return fmt.Sprint(keys[i].Interface()) < fmt.Sprint(keys[j].Interface()) })
+			sort.Slice(keys, func(i, j int) bool { return scalarString(keys[i]) < scalarString(keys[j]) })
 			sb.WriteString("map{")
 			for _, k := range keys {
-				fmt.Fprintf(&sb, "%v=>", k.Interface())
+				sb.WriteString(scalarString(k) + "=>")
 				walk(v.MapIndex(k))
 			}
 			sb.WriteString("}")
 		default:
-			fmt.Fprintf(&sb, "%v;", v.Interface())
+			sb.WriteString(scalarString(v) + ";")
 		}
 	}
 	walk(reflect.ValueOf(s))
 	sum := sha256.Sum256([]byte(sb.String()))
 	return fmt.Sprintf("%x/%d", sum[:8], sb.Len())
+}
+
+// scalarString renders a value of basic kind without Interface(), so that unexported fields
+// (e.g. a cache somebody adds to a definition) are part of the snapshot too.
+func scalarString(v reflect.Value) string {
+	switch v.Kind() {
+	case reflect.String:
+		return strconv.Quote(v.String())
+	case reflect.Bool:
+		return strconv.FormatBool(v.Bool())
+	case reflect.Int, reflect.Int8, reflect.Int16, reflect.Int32, reflect.Int64:
+		return strconv.FormatInt(v.Int(), 10)
+	case reflect.Uint, reflect.Uint8, reflect.Uint16, reflect.Uint32, reflect.Uint64, reflect.Uintptr:
+		return strconv.FormatUint(v.Uint(), 10)
+	case reflect.Float32, reflect.Float64:
+		return strconv.FormatFloat(v.Float(), 'g', -1, 64)
+	case reflect.Invalid:
+		return "invalid"
+	case reflect.Func, reflect.Chan, reflect.UnsafePointer:
+		if v.IsNil() {
+			return v.Kind().String() + "(nil)"
+		}
+		return v.Kind().String()
+	}
+	return v.Kind().String()
 }
 
 type c11Job struct {
